@@ -1238,8 +1238,17 @@ VmTrap vm_core_execute(VmState *vm) {
                 vm_release(&vm->heap, s);
                 return trap_error(vm, VM_ERR_TYPE_ERROR, "STR_SUBSTR: not a string");
             }
-            uint32_t start = (uint32_t)(start_v.tag == TAG_INT ? start_v.as.i64 : 0);
-            uint32_t len = (uint32_t)(len_v.tag == TAG_INT ? len_v.as.i64 : 0);
+            /* start and length are 64-bit values of the program: a negative one (or a start past
+             * the end) yields the empty string, as in the native runtime; a length that reaches
+             * past the end is clamped.  (Truncating -1 to 32 bits gave a 4 GiB read.) */
+            int64_t start64 = start_v.tag == TAG_INT ? start_v.as.i64 : 0;
+            int64_t len64 = len_v.tag == TAG_INT ? len_v.as.i64 : 0;
+            int64_t slen = (int64_t)s.as.string->length;
+            uint32_t start = 0, len = 0;
+            if (start64 >= 0 && len64 >= 0 && start64 <= slen) {
+                start = (uint32_t)start64;
+                len = (uint32_t)(len64 > slen - start64 ? slen - start64 : len64);
+            }
             VmString *result = vm_string_substr(&vm->heap, s.as.string, start, len);
             vm_release(&vm->heap, s);
             stack_push(vm, val_string(result));
